@@ -346,6 +346,27 @@ fn check_inner(c: &Case, rep: &mut Rep) -> Result<(), String> {
                 }
             }
         }
+        // status frames are consistent with the reference as well
+        let mut last_fi = 0u32;
+        for f in s.c.log.iter() {
+            match f {
+                Frame::FileInfo(n) => {
+                    ensure!(*n >= last_fi && *n as usize <= total, "file info reports {} messages after {} (file has {})", n, last_fi, total);
+                    last_fi = *n;
+                }
+                Frame::StreamInfo { id: i, stream_msgs, processed, total: t } if id_chain.contains(i) => {
+                    ensure!(*processed as usize <= total && *t as usize <= total && processed <= t, "stream info of {}: processed {} of {} (file has {})", i, processed, t, total);
+                    if filters_active {
+                        let exp = refpos.iter().filter(|p| **p < *processed as usize).count();
+                        ensure_eq!(*stream_msgs as usize, exp, "stream info of {}: number of stream messages after {} processed file messages", i, processed);
+                    } else {
+                        ensure_eq!(stream_msgs, t, "stream info of unfiltered stream {}: stream messages vs file messages", i);
+                    }
+                }
+                _ => {}
+            }
+        }
+        ensure_eq!(last_fi as usize, total, "last file info vs number of messages in the file");
         let r = s.cmd("close")?;
         ensure!(r.starts_with("ok:"), "close failed: {}", r);
         Ok(())
